@@ -43,6 +43,16 @@ mut('C02', 'multi-implicit-Q2int-index', SW + 'multi_implicit.py', 'rhs = L.u[m 
 mut('C02', 'explicit-node-time', SW + 'explicit.py', 'L.time + L.dt * self.coll.nodes[m])', 'L.time + L.dt * self.coll.nodes[m - 1])')
 mut('C02', 'imex-drops-tau', SW + 'imex_1st_order.py', '            if L.tau[m] is not None:\n                integral[m] += L.tau[m]', '            if False:\n                integral[m] += L.tau[m]')
 mut('C02', 'k-dependent-QI-one-late', 'pySDC/core/sweeper.py', 'self.QI = self.get_Qdelta_implicit(qdType, k=k)', 'self.QI = self.get_Qdelta_implicit(qdType, k=k - 1)')
+mut('C02', 'boris-position-uses-node-velocity', SW + 'boris_2nd_order.py', 'tmp.pos += L.u[m].pos + L.dt * self.coll.delta_m[m] * L.u[0].vel', 'tmp.pos += L.u[m].pos + L.dt * self.coll.delta_m[m] * L.u[m].vel')
+mut('C02', 'boris-tau-not-node-to-node', SW + 'boris_2nd_order.py', '                if m > 0:\n                    integral[m] -= L.tau[m - 1]', '                if False:\n                    integral[m] -= L.tau[m - 1]')
+mut('C02', 'boris-endpoint-weights', SW + 'boris_2nd_order.py', 'L.uend.vel += L.dt * self.coll.weights[m] * f', 'L.uend.vel += L.dt * self.coll.weights[m - 1] * f')
+mut('C02', 'revert-F26-rkn-stage-time', SW + 'Runge_Kutta_Nystrom.py', 'L.f[m + 1] = P.eval_f(L.u[m + 1], L.time + L.dt * self.coll.nodes[m + 1])', 'L.f[m + 1] = P.eval_f(L.u[m + 1], L.time + L.dt * self.coll.nodes[m])')
+mut('C02', 'rkn-position-uses-velocity-tableau', SW + 'Runge_Kutta_Nystrom.py', 'rhs.pos += L.dt**2 * self.Qx[m + 1, j] * self.get_full_f(f)', 'rhs.pos += L.dt**2 * self.QI[m + 1, j] * self.get_full_f(f)')
+mut('C02', 'multistep-alpha-sign', SW + 'Multistep.py', 'rhs -= self.alpha[i] * self.cache.u[i]', 'rhs += self.alpha[i] * self.cache.u[i]')
+mut('C02', 'multistep-am2-coefficient', SW + 'Multistep.py', 'beta = [-1.0 / 12.0, 8.0 / 12.0, 5.0 / 12.0]', 'beta = [1.0 / 12.0, 8.0 / 12.0, 5.0 / 12.0]')
+mut('C02', 'dae-fully-implicit-lower-sum', 'pySDC/projects/DAE/sweepers/fullyImplicitDAE.py', '            for j in range(1, m):\n                u_approx += L.dt * self.QI[m, j] * L.f[j]', '            for j in range(1, m - 1):\n                u_approx += L.dt * self.QI[m, j] * L.f[j]')
+mut('C02', 'dae-semi-implicit-keeps-old-alg', 'pySDC/projects/DAE/sweepers/semiImplicitDAE.py', '            L.u[m].alg[:] = u_new.alg[:]', '            pass')
+mut('C02', 'dae-rk-stage-time', 'pySDC/projects/DAE/sweepers/rungeKuttaDAE.py', 'lvl.time + lvl.dt * self.coll.nodes[m + 1],', 'lvl.time + lvl.dt * self.coll.nodes[m],')
 # ---------------------------------------------------------------------------------------------------------------- C03
 mut('C03', 'last-abs-takes-first-node', 'pySDC/core/sweeper.py', "            L.status.residual = res_norm[-1]\n        elif L.params.residual_type == 'full_rel':", "            L.status.residual = res_norm[0]\n        elif L.params.residual_type == 'full_rel':")
 mut('C03', 'maxiter-off-by-one', CC + 'check_convergence.py', 'iter_converged = S.status.iter >= S.params.maxiter', 'iter_converged = S.status.iter > S.params.maxiter')
